@@ -332,10 +332,12 @@ def _history(ctx, name, symbols, eps, body, state, want, main_got, dom, consts, 
         if len(got) != len(want):
             verdict = ("failed", "second call returns %d cells instead of %d" % (len(got), len(want)), None, conds, k)
             break
+        sub = paths.equalities_subst(conds)
         for i, (g, w_) in enumerate(zip(got, want)):
             if g == main_got[i]:
                 continue
-            v = field.check_zero(g - w_, domain=dom2, seed=ctx.seed + i, cos_nonneg=cos_nonneg, extra_relations=extra_relations, points=pts)
+            res_ = sp.sympify(g - w_).xreplace(sub) if sub else g - w_
+            v = field.check_zero(res_, domain=dom2, seed=ctx.seed + i, cos_nonneg=cos_nonneg, extra_relations=extra_relations, points=pts)
             if v.status == "proved":
                 continue
             st = "failed" if v.status == "refuted" else "undecided"
@@ -440,7 +442,12 @@ def taylor_coeffs(exprs, eps, order):
         row = []
         d = sp.sympify(e)
         for k in range(order + 1):
-            row.append(d.subs(eps, 0) / sp.factorial(k))
+            c = d.subs(eps, 0)
+            if c.has(sp.nan, sp.zoo, sp.oo, -sp.oo):
+                # removable singularity at eps = 0 (e.g. a slope b/dt later multiplied by dt): cancel first
+                d = sp.cancel(sp.together(d))
+                c = d.subs(eps, 0)
+            row.append(c / sp.factorial(k))
             if k < order:
                 d = sp.diff(d, eps)
         out.append(row)
@@ -672,12 +679,16 @@ def _history_taylor(ctx, name, symbols, eps, body, state, want, main_got, main_c
         if len(got) != len(want):
             verdict = ("failed", "second call returns %d cells instead of %d" % (len(got), len(want)), None, conds, kpath, None)
             break
+        sub = {k_: v_ for k_, v_ in paths.equalities_subst(conds).items() if k_ is not eps and eps not in v_.free_symbols}
         coeffs = taylor_coeffs(got, eps, order)
         for i in range(len(got)):
             if got[i] == main_got[i]:
                 continue
             for k in orders:
-                v = field.check_zero(coeffs[i][k] - want[i][k], domain=dom2, seed=ctx.seed + 31 * i + k, cos_nonneg=cos_nonneg,
+                res_ = coeffs[i][k] - want[i][k]
+                if sub:
+                    res_ = sp.sympify(res_).xreplace(sub)
+                v = field.check_zero(res_, domain=dom2, seed=ctx.seed + 31 * i + k, cos_nonneg=cos_nonneg,
                                      extra_relations=extra_relations, points=pts)
                 if v.status == "proved":
                     continue
